@@ -76,10 +76,13 @@ theorem registerActions_ok {env : Env} (hT : TableOk env) {g : Gss} {F : Nat} {h
       refine ⟨h.queue, h.shifts, ?_⟩
       intro x hx
       split at hx
-      · simp only [List.mem_append, List.mem_singleton] at hx
+      · rename_i hcc
+        simp only [List.mem_append, List.mem_singleton] at hx
         rcases hx with hx | hx
         · exact h.acc x hx
-        · subst hx; exact ⟨hd, kind, hhd, hact⟩
+        · subst hx
+          obtain ⟨tk, htk, hk⟩ := hkind hcc
+          exact ⟨hd, tk, hhd, htk, by rw [hk]; exact hact⟩
       · exact h.acc x hx
 
 /-! ## `findOrCreateHead` -/
